@@ -168,6 +168,75 @@ Theorem C26_close_releases : forall cs n, 0 <= n <= 255 ->
 Proof. exact close_releases. Qed.
 Print Assumptions C26_close_releases.
 
+(* ================= sequential-mode numbers, OPEN-time LOCK clauses, mutual exclusion =================
+   (seeds C26f / C26e) LOCK / UNLOCK through a number open FOR INPUT / OUTPUT / APPEND ignore their bounds:
+   the statement IS the whole-file statement; UNLOCK there matches whatever bounds are given *)
+Theorem C26_text_lock_whole_file : forall u st n so eo this r,
+  find n (st_files st) = Some this -> lp_mode this <> MR -> lock_limits so eo = Ok r ->
+  lock_stmt u st n so eo = lock_stmt u st n None None.
+Proof. exact text_lock_ignores_bounds. Qed.
+Print Assumptions C26_text_lock_whole_file.
+
+Theorem C26_text_unlock_any_bounds : forall st n so eo this r,
+  0 < n <= 255 -> find n (st_files st) = Some this -> lp_mode this <> MR -> lock_limits so eo = Ok r ->
+  (In None (lp_set this) -> snd (lock_stmt true st n so eo) = Ok tt) /\
+  (~ In None (lp_set this) -> lock_stmt true st n so eo = (st, Err locks_err_PERMISSION_DENIED)).
+Proof. exact text_unlock_matches_any_bounds. Qed.
+Print Assumptions C26_text_unlock_any_bounds.
+
+(* a whole-file lock refuses every LOCK request on the name, through every number, whatever its range *)
+Theorem C26_whole_file_lock_excludes_requests : forall fs n this m r0,
+  find n fs = Some this -> held fs (lp_name this) m None ->
+  acquire_record_lock fs n r0 = Err locks_err_PERMISSION_DENIED.
+Proof. exact whole_file_lock_excludes_requests. Qed.
+Print Assumptions C26_whole_file_lock_excludes_requests.
+
+(* the LOCK READ / LOCK WRITE / LOCK READ WRITE clause that ANOTHER number gave at OPEN forbids GET resp. PUT
+   (every record, locked or not) and reading a sequential file: Path/file access error; nothing is transferred
+   (C26_refused_access_frame) *)
+Theorem C26_open_clause_forbids_access : forall put st n pos this p m e2,
+  0 < n <= 255 -> find n (st_files st) = Some this -> lp_mode this = MR -> check_pos pos = Ok p ->
+  In (m, e2) (st_files st) -> m <> n -> lp_name e2 = lp_name this ->
+  other_lock_denies (lp_lock e2) put = true ->
+  snd (getput_stmt put st n pos) = Err locks_err_PATH_FILE_ACCESS_ERROR.
+Proof. exact open_clause_forbids_getput. Qed.
+Print Assumptions C26_open_clause_forbids_access.
+
+Theorem C26_open_clause_forbids_text_read : forall st n this m e2,
+  0 < n <= 255 -> find n (st_files st) = Some this -> lp_mode this = MI ->
+  In (m, e2) (st_files st) -> m <> n -> lp_name e2 = lp_name this ->
+  other_lock_denies (lp_lock e2) false = true ->
+  textread_stmt st n = (st, Err locks_err_PATH_FILE_ACCESS_ERROR).
+Proof. exact open_clause_forbids_textread. Qed.
+Print Assumptions C26_open_clause_forbids_text_read.
+
+Theorem C26_which_clause_forbids_what :
+  other_lock_denies LR false = true /\ other_lock_denies LRW false = true /\ other_lock_denies LW true = true /\
+  other_lock_denies LRW true = true /\ other_lock_denies LR true = false /\ other_lock_denies LW false = false /\
+  (forall w, other_lock_denies LNone w = false) /\ (forall w, other_lock_denies LShared w = false).
+Proof. exact other_lock_denies_table. Qed.
+Print Assumptions C26_which_clause_forbids_what.
+
+(* MUTUAL EXCLUSION, for EVERY history of OPEN / CLOSE / LOCK / UNLOCK / GET / PUT / INPUT$ statements: while a
+   number holds a lock containing record k of a file (range lock, whole-file lock, lock through a sequential
+   number), (1) no other held lock on that file - through any number, also its own - contains k,
+   (2) GET / PUT of k through every other number fails (GET passes only while the holder has the file open for
+   OUTPUT/APPEND), (3) every LOCK request containing k is refused, through every number *)
+Theorem C26_mutual_exclusion : forall ops nm n1 e1 r1 k,
+  let st := run init ops in let fs := st_files st in
+  In (n1, e1) fs -> lp_name e1 = nm -> In r1 (lp_set e1) -> in_range k r1 ->
+  (forall n2 e2 r2, In (n2, e2) fs -> lp_name e2 = nm -> In r2 (lp_set e2) -> in_range k r2 -> n2 = n1 /\ r2 = r1) /\
+  (forall put n2 this pos p, 0 < n2 <= 255 -> n2 <> n1 -> find n2 fs = Some this -> lp_name this = nm ->
+     lp_mode this = MR -> check_pos pos = Ok p -> accessed_record this p = k ->
+     (is_oa (lp_mode e1) && negb put) = false ->
+     snd (getput_stmt put st n2 pos) = Err locks_err_PERMISSION_DENIED \/
+     snd (getput_stmt put st n2 pos) = Err locks_err_PATH_FILE_ACCESS_ERROR) /\
+  (forall n2 this so eo r, 0 < n2 <= 255 -> find n2 fs = Some this -> lp_name this = nm ->
+     lock_limits so eo = Ok r -> in_range k (effective_range this r) ->
+     lock_stmt false st n2 so eo = (st, Err locks_err_PERMISSION_DENIED)).
+Proof. exact mutual_exclusion. Qed.
+Print Assumptions C26_mutual_exclusion.
+
 (* ---- defect D8 (fixed by fixes/D8.patch): the endpoint test that was in the code accepts a range that
    strictly contains a held one *)
 Theorem C26_endpoint_test_refuted :
